@@ -285,6 +285,7 @@ def parseBools := Proto.parseList Proto.parseBool
 
 /-- ops:
   `val.mit <n> <y|none> <sf|none> <cf|none>`
+  `val.src <expectY> <expectSf> <enforceBinary> <n> <y|none> <sf|none> <cf|none>`   (the lifted check list, any flags)
   `val.to <estimatorGiven> <constraints> <objective> <n> <y|none> <sf|none> <cf|none>`
   `val.frame <nTrue> <nPred> <paramLens> <sfNames> <sfIsStr> <sfLens> <cfNames> <cfIsStr> <cfLens>`
   `val.parity <dGiven> <rGiven> <ratio> <difference_bound> <ratio_bound_slack>`     `val.costs <given> <isDict> <keysOk> <fp> <fn>`
@@ -298,6 +299,10 @@ def handle (toks : List String) : Option String :=
     let d : MitData := ⟨← Proto.parseNat n, ← parseOpt Proto.parseRats y, ← parseOpt Proto.parseNats sf,
       ← parseOpt Proto.parseNats cf⟩
     pure (mitFit d).fmt
+  | ["val.src", ey, es, eb, n, y, sf, cf] => do
+    let d : MitData := ⟨← Proto.parseNat n, ← parseOpt Proto.parseRats y, ← parseOpt Proto.parseNats sf,
+      ← parseOpt Proto.parseNats cf⟩
+    pure (validateSrc (← Proto.parseBool ey) (← Proto.parseBool es) (← Proto.parseBool eb) d).fmt
   | ["val.to", est, c, o, n, y, sf, cf] => do
     let d : MitData := ⟨← Proto.parseNat n, ← parseOpt Proto.parseRats y, ← parseOpt Proto.parseNats sf,
       ← parseOpt Proto.parseNats cf⟩
